@@ -72,6 +72,32 @@ func TestProp_Accept(t *testing.T) {
 				t.Fatalf("spelling with /*! */ comments (%+v):\n%s\nparses (Comment statements removed) to\n  %s\nthe grammar dictates\n  %s", o, bangSrc, got, prog.Str)
 			}
 			ev.Count("accept", "bang-comment spelling", 1)
+			// the tree stays what it is while the caller holds it: a later Parse (of a text with kept comments) leaves it alone
+			before := ast3.String()
+			if _, err := js.Parse(parse.NewInputString("/*! other */ /*! licence */ held = 1; /*! z */ held2 = 2"), o); err != nil {
+				t.Fatalf("second parse: %v", err)
+			}
+			if got := ast3.String(); got != before {
+				t.Fatalf("the tree of\n%s\nwas\n  %s\nand is, after a later Parse of another text,\n  %s", bangSrc, before, got)
+			}
+		}
+		// a few kept comments in front of the program (1-9: a tree whose statement list was built next to the comments)
+		if k := rapid.IntRange(0, 9).Draw(t, "leading-comments"); k > 0 {
+			src4 := strings.Repeat("/*! c */", k) + dense
+			ast4, err := js.Parse(parse.NewInputString(src4), o)
+			if err != nil {
+				t.Fatalf("%d kept comments in front of the program rejected (%+v):\n%s\nerror: %v", k, o, src4, err)
+			}
+			before := ast4.String()
+			if got := strings.TrimSpace(bangComment.ReplaceAllString(before, "")); got != prog.Str {
+				t.Fatalf("%d kept comments in front of the program (%+v):\n%s\nparses (Comment statements removed) to\n  %s\nthe grammar dictates\n  %s", k, o, src4, got, prog.Str)
+			}
+			if _, err := js.Parse(parse.NewInputString("/*! other */ /*! licence */ held = 1; /*! z */ held2 = 2"), o); err != nil {
+				t.Fatalf("second parse: %v", err)
+			}
+			if got := ast4.String(); got != before {
+				t.Fatalf("the tree of\n%s\nwas\n  %s\nand is, after a later Parse of another text,\n  %s", src4, before, got)
+			}
 		}
 		nops, nkinds := 0, 0
 		for _, n := range g.Ops {
@@ -191,9 +217,24 @@ func TestProp_RejectForbidden(t *testing.T) {
 		}
 		switch kind {
 		case "unary-exp":
-			op := rapid.SampledFrom([]string{"-", "+", "!", "~", "typeof", "void"}).Draw(t, "unop")
+			op := rapid.SampledFrom([]string{"-", "+", "!", "~", "typeof", "void", "delete", "await"}).Draw(t, "unop")
 			bad = w("x", "=", op, a, "**", b)
 			good = w("x", "=", "(", op, a, ")", "**", b)
+			if op == "await" {
+				// await is an operator inside async functions (and at the top level of a module, which the drawn
+				// goal may not be): simple operands, every kind of async body, also as the right operand of **
+				y, z := rapid.SampledFrom([]string{"y", "y.p", "y()", "y[0]", "1", "y++", "new Y"}).Draw(t, "base"), rapid.SampledFrom([]string{"z", "2", "z.q", "-z", "z ** 2"}).Draw(t, "exponent")
+				form := rapid.SampledFrom([]string{"x = await %s ** %s", "x = 2 ** await %s ** %s", "return await %s ** %s", "f(await %s ** %s)", "x = [await %s ** %s]", "x = -await %s ** %s"}).Draw(t, "awaitform")
+				ctl := strings.Replace(strings.Replace(form, "-await", "-(await", 1), "await %s", "(await %s)", 1)
+				if strings.Contains(form, "-await") {
+					ctl = strings.Replace(form, "-await %s ** %s", "(-await %s) ** %s", 1)
+				}
+				wrapper := rapid.SampledFrom([]string{"async function w(){%s}", "w = async () => {%s}", "w = {async m(){%s}}", "class W{async m(){%s}}", "w = async function*(){%s}"}).Draw(t, "asyncwrap")
+				src := func(f string) []jsgen.Tok {
+					return []jsgen.Tok{{S: fmt.Sprintf(wrapper, fmt.Sprintf(f, y, z))}}
+				}
+				bad, good = src(form), src(ctl)
+			}
 		case "coalesce-or":
 			bad, good = w("x", "=", a, "??", b, "||", c), w("x", "=", "(", a, "??", b, ")", "||", c)
 		case "or-coalesce":
